@@ -124,6 +124,8 @@ class SimLock:
         if not blocking:
             return False
         k.probe("lock_contended")
+        if self._owner is me and (timeout is None or timeout < 0):
+            k.declare_hang("self-deadlock: %s waits for a non-reentrant lock it holds itself" % me.name)
         dl = _deadline(k, timeout)
         while True:
             ok = k.block_until(lambda: self._owner is None, dl, why="lock")
